@@ -39,9 +39,12 @@ class Element:
 
 
 def wrap(element):
-    """Abstract object the interpreted code sees."""
+    """Abstract object the interpreted code sees (one per element, so that ``is`` works as on real trees)."""
+    if getattr(element, "wrapped", None) is not None:
+        return element.wrapped
     obj = Obj("xml.etree.ElementTree.Element", {}, label=element.tag.split("}")[1])
     obj.element = element
+    element.wrapped = obj
 
     def resolve(path, namespaces):
         if not isinstance(path, str):
@@ -146,6 +149,12 @@ def cell_encodings():
         "empty paragraph between": ([Element("text:p", text=a), Element("text:p"), Element("text:p", text=b)], [a, "\n\n", b]),
         "nested spans": ([Element("text:p", text=a, children=[Element("text:span", children=[Element("text:span", text=b)])])], [a, b]),
         "text:s first": ([Element("text:p", children=[Element("text:s", tail=a)])], [" ", a]),
+        "text:s inside span": ([Element("text:p", children=[Element("text:span", text=a, children=[Element("text:s", {"text:c": "2"}, tail=b)])])], [a, "  ", b]),
+        "text:tab inside span": ([Element("text:p", children=[Element("text:span", text=a, children=[Element("text:tab", tail=b)])])], [a, "\t", b]),
+        "text:line-break inside nested span": ([Element("text:p", text=a, children=[Element("text:span", children=[
+            Element("text:span", children=[Element("text:line-break")], tail=b)])])], [a, "\n", b]),
+        "text:s last": ([Element("text:p", text=a, children=[Element("text:s")])], [a, " "]),
+        "two text:s in a row": ([Element("text:p", text=a, children=[Element("text:s"), Element("text:s", {"text:c": "2"}, tail=b)])], [a, "   ", b]),
     }
 
 
@@ -220,6 +229,16 @@ def run_ods_rows(model, ch, document, sheet):
             return len(value.element.children)
         raise Undecided("len of %r" % (value,))
 
+    def subscript_hook(interp, args, kwargs):
+        value, index = args
+        if isinstance(value, Obj) and hasattr(value, "element") and isinstance(index, (int, slice)):
+            children = [wrap(child) for child in value.element.children]
+            try:
+                return children[index]
+            except IndexError:
+                interp.raise_("builtins.IndexError", "child index out of range")
+        raise Undecided("subscript %r of %r" % (index, value))
+
     def binop_hook(interp, args, kwargs):
         import ast as _ast
 
@@ -231,7 +250,7 @@ def run_ods_rows(model, ch, document, sheet):
         return NotImplemented
 
     interp = Interp(model, ch, stubs={"cutplace.rowio.ods_rows.ods_content_root": content_root},
-                    externals={"iterate": iterate_hook, "len": len_hook, "binop": binop_hook, "os.path.basename": lambda i, a, k: "x"})
+                    externals={"iterate": iterate_hook, "len": len_hook, "binop": binop_hook, "subscript": subscript_hook, "os.path.basename": lambda i, a, k: "x"})
     rows = []
     try:
         generator = interp.call_function(model.func("cutplace.rowio.ods_rows"), ["book.ods", sheet], {}, None)
@@ -242,9 +261,9 @@ def run_ods_rows(model, ch, document, sheet):
         return rows, "raise " + exc_name(raised.value)
 
 
-def rule_cell_texts(ctx):
+def rule_cell_texts(ctx, rule_id="O15.1"):
     model = ctx.model
-    ctx.res.minimum("O15.1", 1)
+    ctx.res.minimum(rule_id, 1)
     encodings = cell_encodings()
     plain = encodings["plain"]
 
@@ -269,12 +288,12 @@ def rule_cell_texts(ctx):
             return (key, "%s: following cell altered" % name, show(rows[0][count]))
         return (key, None, None)
 
-    decide_kinds(ctx, "O15.1", "ods_rows(cell text encodings x column runs)", "cutplace.rowio.ods_rows", cell, min_cells=60)
+    decide_kinds(ctx, rule_id, "ods_rows(cell text encodings x column runs)", "cutplace.rowio.ods_rows", cell, min_cells=60)
 
 
 def rule_repeats_and_sheets(ctx):
     model = ctx.model
-    ctx.res.minimum("O15.2", 2)
+    ctx.res.minimum("O15.2", 3)
 
     def repeat_cell(ch):
         repeat = ch.choose("number-columns-repeated", ["0", "-1", "x", "", "1.5"])
@@ -322,4 +341,33 @@ def rule_repeats_and_sheets(ctx):
     decide_kinds(ctx, "O15.2", "ods_rows(sheet selection)", "cutplace.rowio.ods_rows", sheet_cell, min_cells=12)
 
 
-RULES = [rule_cell_texts, rule_repeats_and_sheets]
+def rule_empty_rows(ctx, rule_id="O15.2"):
+    model = ctx.model
+
+    def empty_row_cell(ch):
+        position = ch.choose("empty row", ["first", "middle", "last"])
+        shape = ch.choose("shape", ["row of empty cells", "row without cells", "one repeated empty cell"])
+        a, b = text_atom("A"), text_atom("B")
+        empty = {"row of empty cells": [({}, []), ({}, [])], "row without cells": [],
+                 "one repeated empty cell": [({"table:number-columns-repeated": "2"}, [])]}[shape]
+        filled = [({}, [({}, [Element("text:p", text=a)])]), ({}, [({}, [Element("text:p", text=b)])])]
+        index = {"first": 0, "middle": 1, "last": 2}[position]
+        rows_in = filled[:index] + [({}, empty)] + filled[index:]
+        document = build_document([rows_in])
+        rows, outcome = run_ods_rows(model, ch, document, 1)
+        key = "empty row %s (%s)" % (position, shape)
+        if outcome != "rows":
+            return (key, "empty row: " + outcome, outcome)
+        if len(rows) != 3:
+            return (key, "an empty row of the sheet is not returned (row numbers of all later rows shift)", "%d rows read instead of 3" % len(rows))
+        width = {"row of empty cells": 2, "row without cells": 0, "one repeated empty cell": 2}[shape]
+        if not isinstance(rows[index], list) or len(rows[index]) != width:
+            return (key, "an empty row does not keep its cells", "%r instead of %d empty texts" % (rows[index], width))
+        if any(not (isinstance(value, str) and value == "") for value in rows[index]):
+            return (key, "cells of an empty row are not empty texts", repr(rows[index]))
+        return (key, None, None)
+
+    decide_kinds(ctx, rule_id, "ods_rows(empty rows keep their place)", "cutplace.rowio.ods_rows", empty_row_cell, min_cells=9)
+
+
+RULES = [rule_cell_texts, rule_repeats_and_sheets, rule_empty_rows]
